@@ -191,4 +191,35 @@ def setProposalFull (st : ConsView) (p : ProposalIn) (elapsed : Nat) (maxParts :
                         recoverCount := st.recoverCount + 1, commitStep := false }
     else go st
 
+/-! ### HeightVoteSet.AddVote: the per-peer allowance of two catch-up rounds -/
+
+/-- the rounds a HeightVoteSet holds (each a prevote + a precommit VoteSet) and `peerCatchupRounds` as (peer, round) charges -/
+structure Hvs where
+  rounds : List Int
+  charges : List (String × Int)
+deriving Repr, DecidableEq
+
+def Hvs.chargedTo (h : Hvs) (peer : String) : Nat := (h.charges.filter (fun c => c.1 == peer)).length
+
+/-- one vote as `AddVote` sees it: its round, whether its type is valid, and the verdict `VoteSet.AddVote` WOULD give
+(signature, index, address …) — which the allowance does not depend on -/
+structure VoteIn where
+  round : Int
+  typeValid : Bool
+  acceptable : Bool
+deriving Repr, DecidableEq
+
+/-- `HeightVoteSet.AddVote` as the code is: unknown round → if the peer has fewer than 2 charges the round is opened and
+the peer is charged BEFORE the vote is judged, otherwise ErrGotVoteFromUnwantedRound -/
+def Hvs.addVote (h : Hvs) (v : VoteIn) (peer : String) : Hvs × Reply :=
+  if !v.typeValid then (h, .rejected "invalid vote type")
+  else if h.rounds.contains v.round then (h, if v.acceptable then .accepted else .rejected "vote refused by the vote set")
+  else if h.chargedTo peer < 2 then
+    ({ rounds := v.round :: h.rounds, charges := (peer, v.round) :: h.charges },
+     if v.acceptable then .accepted else .rejected "vote refused by the vote set")
+  else (h, .rejected "ErrGotVoteFromUnwantedRound")
+
+/-- a whole stream of votes from one peer -/
+def Hvs.addVotes (h : Hvs) (vs : List VoteIn) (peer : String) : Hvs := vs.foldl (fun h v => (h.addVote v peer).1) h
+
 end Model.PeerInput
